@@ -172,7 +172,8 @@ def run_calls(name: str, bounds, prec, rem, bs: int, seed: int, ncalls: int, rng
             except Exception as e:  # noqa: BLE001
                 same = before == sha(pts, losses) and np.array_equal(keep_p, pts) and np.array_equal(keep_l, losses, equal_nan=True)
                 events.append({"e": "sample-raised", "cls": name, "what": f"{type(e).__name__}: {e}"[:160], "call": c, "kw": _kw(kw),
-                               "bounds": bounds, "prec": prec, "bs": bs, "seed": seed, "extreme": extreme, "histsame": bool(same)})
+                               "bounds": bounds, "prec": prec, "bs": bs, "seed": seed, "extreme": extreme, "histsame": bool(same),
+                               "ordinary": bool(np.all(np.isfinite(keep_l)) and np.all(np.abs(keep_l) <= 1e30)), "typed": typed})
                 break
             out = np.asarray(out)
             same = before == sha(pts, losses) and np.array_equal(keep_p, pts) and np.array_equal(keep_l, losses, equal_nan=True)
